@@ -55,7 +55,9 @@ def real_run(item):
     ws.DriverStationSim.setDsAttached(True)
     ws.DriverStationSim.notifyNewData()
     Robot, comps, hooks = lcm.build_robot(job["layout"], H, {})
+    H.comps, H.hook_names = comps, hooks
     r = Robot()
+    H.robot = r
     r.use_teleop_in_autonomous = bool(item.get("uti"))
     out = {}
 
